@@ -156,6 +156,8 @@ func runC03(c *Ctx) {
 	r4 := c.Rule("R4", "pre-images logged before the in-place flip (shared with C08.R2)", 4)
 	rulePreImagesBeforeFlip(c, r4)
 
+	r7 := c.Rule("R7", "uncommitted in-place changes of a node stay private: the host-wide L1 node cache stores clones of what it is given and hands out materialised copies only, so a transaction never works on the object the cache holds (shared with C38.R2/R3)", 3)
+	l1IsolationRules(c, r7, r7)
 	r6 := c.Rule("R6", "a handle becomes visible through the caches only after it is in the registry file: the file-system registry's Add / UpdateNoLocks refresh L1 and L2 only after the disk write succeeded (shared with C20.R2) - otherwise readers resolve the flipped handle of a commit whose registry write then fails", 4)
 	registryCacheAfterWriteRule(c, r6)
 
